@@ -9,5 +9,6 @@ INVARIANT C04RightInverse
 INVARIANT C04Collapse
 INVARIANT C11Agree
 INVARIANT C11ReadWriteSame
+INVARIANT C11Mirrors
 INVARIANT SysDrift
 CHECK_DEADLOCK FALSE
